@@ -1,106 +1,189 @@
 /-
   C16 — only valid credentials of an authorized user open a protected URL.
-  Property theorems only (helper lemmas: LtVerif/Proofs/Auth.lean; the vocabulary
-  `BasicValid`, `DigestValid`, `NonceFresh` is defined at the end of LtVerif/Model/Auth.lean).
+  Property theorems only (helper lemmas: LtVerif/Proofs/Auth.lean; the vocabulary `BasicValid`,
+  `DigestValid`, `NonceFresh`, `DigestWellFormed` is defined at the end of LtVerif/Model/Auth.lean).
 
-  All theorems hold for every digest function `P.H`, every cache-key hash `P.hash`
-  (hence for every pattern of key collisions), every configuration and user file, and
-  every history `ops` of requests by any users against any rules, clock ticks and
-  wall-clock steps since server start (`init`: empty cache).
+  All theorems hold for every digest function `P.H`, every cache-key hash `P.hash` (hence for
+  every pattern of key collisions), every configuration (rules, backend scopes, user files) and
+  every history `ops` since server start (`init`: empty cache) of requests by any users against
+  any rules under any backend scope, server-loop iterations and wall-clock steps.
+
+  "Valid credentials" are read with lighttpd's own parsers (`basicCreds`, `parseAuthorization`):
+  what a header MEANS is the model's transcription of the C parser, validated against the C by
+  the correspondence run and against an independent RFC 7616/7617 reading only by the Python oracle.
 -/
 import LtVerif.Proofs.Auth
 namespace LtVerif.C16
 open LtVerif B LtVerif.Auth
 
-/-- Basic: whatever happened before, a request under a Basic rule is served only if its
-    Authorization header decodes to `user:password`, the backend's record for that user
-    matches the password, and the rule authorizes the user (also when the answer comes
-    from the credential cache). -/
+/-- Basic, soundness: whatever happened before, a request under a Basic rule is served only if
+    its Authorization header decodes to `user:password`, the rule authorizes the user, and the
+    password matches the user's record at a backend scope `s'` — the scope the request's own
+    conditions select, or a scope under which an earlier request of the history filled the
+    shared cache.  (With one backend behind all scopes: c16_basic_sound_one_backend.) -/
 theorem c16_basic_sound (P : Prims) (cfg : Cfg) (m e : Int) (ops : List Op) (req : Req)
     (ridx : Nat) (rule : Rule) (u : Bytes) (d n : Bool)
     (hf : findRule cfg.rules req.path 0 = some (ridx, rule)) (hs : rule.scheme = .basic)
-    (h : (handle P cfg (run P cfg (init m e) ops) req).2 = .go u d n) :
-    ∃ hdr, req.auth = some hdr ∧ BasicValid P cfg rule hdr u := by
-  obtain ⟨hdr, hh, hv⟩ := handle_go (run_cacheOk ops init_cacheOk) hf h
-  rcases hv with ⟨_, _, hv⟩ | ⟨hd, _, _⟩
-  · exact ⟨hdr, hh, hv⟩
-  · rw [hs] at hd; cases hd
+    (h : (serve P cfg (run P cfg (init m e) ops) req).2 = .go u d n) :
+    ∃ hdr s', req.auth = some hdr ∧ (s' = req.scope ∨ s' ∈ usedScopes ops) ∧
+      BasicValid P (cfg.at s') rule hdr u := by
+  obtain ⟨hdr, s', hh, hs', hv⟩ := serve_go (run_cacheOkS ops cacheOkS_nil) hf h
+  refine ⟨hdr, s', hh, ?_, ?_⟩
+  · rcases hs' with h | ⟨p, hp, rfl⟩
+    · exact Or.inl h
+    · right
+      simpa using run_scopes (P := P) (cfg := cfg) ops (st := init m e) [] (fun _ h => by cases h) p hp
+  · rcases hv with ⟨_, _, hv⟩ | ⟨hd, _, _⟩
+    · exact hv
+    · rw [hs] at hd; cases hd
 
-/-- Digest: a request under a Digest rule is served only if its parameters name the rule's
-    realm and the request's own request-target, the nonce carries a timestamp within
+/-- Digest, soundness: a request under a Digest rule is served only if its parameters name the
+    rule's realm and the request's own request-target, the nonce carries a timestamp within
     [now − 600, now] (and, with nonce-secret, is exactly a nonce mod_auth_append_nonce() issues),
     the algorithm is one the rule allows, the response equals KD(H(A1), …, H(method:uri)) for
-    the backend's H(A1) of the claimed user and the request's own method, and the rule
-    authorizes that user — `DigestValid`, evaluated at the wall clock of the request. -/
+    the H(A1) a backend scope `s'` (as in c16_basic_sound) holds for the claimed user and for
+    the request's own method, and the rule authorizes that user — `DigestValid`, evaluated at
+    the wall clock of the request. -/
 theorem c16_digest_sound (P : Prims) (cfg : Cfg) (m e : Int) (ops : List Op) (req : Req)
     (ridx : Nat) (rule : Rule) (u : Bytes) (d n : Bool)
     (hf : findRule cfg.rules req.path 0 = some (ridx, rule)) (hs : rule.scheme = .digest)
-    (h : (handle P cfg (run P cfg (init m e) ops) req).2 = .go u d n) :
+    (h : (serve P cfg (run P cfg (init m e) ops) req).2 = .go u d n) :
+    ∃ hdr s', req.auth = some hdr ∧ (s' = req.scope ∨ s' ∈ usedScopes ops) ∧
+      DigestValid P (cfg.at s') rule (run P cfg (init m e) ops).epoch req hdr u := by
+  obtain ⟨hdr, s', hh, hs', hv⟩ := serve_go (run_cacheOkS ops cacheOkS_nil) hf h
+  refine ⟨hdr, s', hh, ?_, ?_⟩
+  · rcases hs' with h | ⟨p, hp, rfl⟩
+    · exact Or.inl h
+    · right
+      simpa using run_scopes (P := P) (cfg := cfg) ops (st := init m e) [] (fun _ h => by cases h) p hp
+  · rcases hv with ⟨hd, _, _⟩ | ⟨_, _, hv⟩
+    · rw [hs] at hd; cases hd
+    · exact hv
+
+/-- … and when every request of the history ran under a scope with the same backend and user
+    file as this request's (in particular: no auth.backend / userfile inside conditions), the
+    credentials are valid for the request's own backend. -/
+theorem c16_basic_sound_one_backend (P : Prims) (cfg : Cfg) (m e : Int) (ops : List Op) (req : Req)
+    (ridx : Nat) (rule : Rule) (u : Bytes) (d n : Bool)
+    (hf : findRule cfg.rules req.path 0 = some (ridx, rule)) (hs : rule.scheme = .basic)
+    (hone : ∀ s' ∈ usedScopes ops, SameBackend cfg s' req.scope)
+    (h : (serve P cfg (run P cfg (init m e) ops) req).2 = .go u d n) :
+    ∃ hdr, req.auth = some hdr ∧ BasicValid P (cfg.at req.scope) rule hdr u := by
+  obtain ⟨hdr, s', hh, hs', hv⟩ := c16_basic_sound P cfg m e ops req ridx rule u d n hf hs h
+  refine ⟨hdr, hh, ?_⟩
+  rcases hs' with rfl | hs'
+  · exact hv
+  · exact basicValid_congr (hone s' hs').1 (hone s' hs').2 hv
+
+theorem c16_digest_sound_one_backend (P : Prims) (cfg : Cfg) (m e : Int) (ops : List Op) (req : Req)
+    (ridx : Nat) (rule : Rule) (u : Bytes) (d n : Bool)
+    (hf : findRule cfg.rules req.path 0 = some (ridx, rule)) (hs : rule.scheme = .digest)
+    (hone : ∀ s' ∈ usedScopes ops, SameBackend cfg s' req.scope)
+    (h : (serve P cfg (run P cfg (init m e) ops) req).2 = .go u d n) :
     ∃ hdr, req.auth = some hdr ∧
-      DigestValid P cfg rule (run P cfg (init m e) ops).epoch req hdr u := by
-  obtain ⟨hdr, hh, hv⟩ := handle_go (run_cacheOk ops init_cacheOk) hf h
-  rcases hv with ⟨hd, _, _⟩ | ⟨_, _, hv⟩
-  · rw [hs] at hd; cases hd
-  · exact ⟨hdr, hh, hv⟩
+      DigestValid P (cfg.at req.scope) rule (run P cfg (init m e) ops).epoch req hdr u := by
+  obtain ⟨hdr, s', hh, hs', hv⟩ := c16_digest_sound P cfg m e ops req ridx rule u d n hf hs h
+  refine ⟨hdr, hh, ?_⟩
+  rcases hs' with rfl | hs'
+  · exact hv
+  · exact digestValid_congr (hone s' hs').1 (hone s' hs').2 hv
 
-/-- The credential cache never converts a refused credential into an accepted one: if a
-    request is served in a state reached by any history, then a server with an empty cache
-    (same clocks) serves it too, as the same user.  No assumption on the hash: keys of
-    different users, realms and rules may collide arbitrarily. -/
-theorem c16_cache_never_upgrades (P : Prims) (cfg : Cfg) (m e : Int) (ops : List Op) (req : Req)
+/-- Completeness, Basic: valid credentials of an authorized user ARE served — from an empty
+    cache (server start, or after c16_cache_forgets) a request under a Basic rule whose header
+    is `BasicValid` for the backend its conditions select is served as that user.  (With a
+    non-empty cache the statement is false in one corner the code has: a cached password is
+    compared byte for byte, the backend compares C strings, so `pw\0x` after `pw` gets 401.) -/
+theorem c16_basic_valid_served (P : Prims) (cfg : Cfg) (st : St) (req : Req)
+    (ridx : Nat) (rule : Rule) (hdr u : Bytes)
+    (hf : findRule cfg.rules req.path 0 = some (ridx, rule)) (hs : rule.scheme = .basic)
+    (hh : req.auth = some hdr) (hv : BasicValid P (cfg.at req.scope) rule hdr u) :
+    (serve P cfg { st with cache := [] } req).2 = .go u false false :=
+  basic_valid_served (cfg := cfg.at req.scope) (by rw [at_rules]; exact hf) hs hh hv
+
+/-- Completeness, Digest: a header that is `DigestValid` at the current wall clock for the
+    backend the request's conditions select and `DigestWellFormed` (required parameters present,
+    qop ≠ auth-int, -sess with cnonce, response of the digest's length) is served as that user. -/
+theorem c16_digest_valid_served (P : Prims) (cfg : Cfg) (st : St) (req : Req)
+    (ridx : Nat) (rule : Rule) (hdr u : Bytes)
+    (hf : findRule cfg.rules req.path 0 = some (ridx, rule)) (hs : rule.scheme = .digest)
+    (hh : req.auth = some hdr) (hv : DigestValid P (cfg.at req.scope) rule st.epoch req hdr u)
+    (hw : DigestWellFormed (parseAuthorization (hdr.drop 7))) :
+    ∃ nn, (serve P cfg { st with cache := [] } req).2 = .go u true nn :=
+  digest_valid_served (cfg := cfg.at req.scope) (by rw [at_rules]; exact hf) hs hh hv hw
+
+/-- PARTIAL.  Full statement: "the credential cache never converts a refused credential into
+    an accepted one": served from the cache reached by ANY history ⇒ served from an empty cache.
+    Proved: under the hypothesis that all requests of the history ran under scopes with this
+    request's backend and user file — then it holds across users, realms, rules and arbitrary
+    key collisions.  Missing: the case of auth.backend / auth.backend.*.userfile set inside
+    conditions while auth.require and auth.cache are global; there the statement is FALSE of the
+    code (c16_cache_upgrades_across_backend_scopes; open finding, see known_findings.json). -/
+theorem c16_cache_never_upgrades_partial (P : Prims) (cfg : Cfg) (m e : Int) (ops : List Op) (req : Req)
     (u : Bytes) (d n : Bool)
-    (h : (handle P cfg (run P cfg (init m e) ops) req).2 = .go u d n) :
-    (handle P cfg { run P cfg (init m e) ops with cache := [] } req).2 = .go u d n :=
-  handle_go_nocache (run_cacheOk ops init_cacheOk) h
+    (hone : ∀ s' ∈ usedScopes ops, SameBackend cfg s' req.scope)
+    (h : (serve P cfg (run P cfg (init m e) ops) req).2 = .go u d n) :
+    (serve P cfg { run P cfg (init m e) ops with cache := [] } req).2 = .go u d n := by
+  apply serve_go_nocache (run_cacheOkS ops cacheOkS_nil) _ h
+  intro p hp
+  apply hone
+  simpa using run_scopes (P := P) (cfg := cfg) ops (st := init m e) [] (fun _ h => by cases h) p hp
 
-/-- A cache hit requires the same rule, the same user bytes and (Digest) the same algorithm
-    and kind of key, whatever the cache contains and whatever key was computed: a colliding
-    entry is not a hit and the backend is asked. -/
-theorem c16_cache_hit_same_rule_user_algorithm (c : Cache) (key : Int) (ridx : Nat) (user : Bytes)
-    (ai : AI) (e : Entry) :
-    (basicHit c key ridx user = some e → e.rule = ridx ∧ e.username = user) ∧
-    (digestHitEntry c key ridx ai user = some e →
-       e.rule = ridx ∧ e.k = user ∧ e.dalgo = ai.dalgo ∧ e.dlen = ai.dlen ∧ e.kIsUser = !ai.userhash) := by
-  constructor
-  · intro h; exact (basicHit_some h).2
-  · intro h
-    have := (digestHitEntry_some h).2
-    simp only [digestHit, Bool.and_eq_true, decide_eq_true_eq] at this
-    obtain ⟨⟨⟨⟨h1, h2⟩, h3⟩, h4⟩, h5⟩ := this
-    exact ⟨h1, h4, h2, h3, h5⟩
+/-- Witness of the negation of the full statement: two backend scopes with different user
+    files behind one rule and one cache.  alice's scope-0 password is refused under scope 1 by
+    a server with an empty cache, and served under scope 1 once scope 0 has verified it. -/
+theorem c16_cache_upgrades_across_backend_scopes :
+    ∃ (P : Prims) (cfg : Cfg) (ops : List Op) (req : Req),
+      (serve P cfg (run P cfg (init 1000 1700000000) ops) req).2.served = true ∧
+      (serve P cfg { run P cfg (init 1000 1700000000) ops with cache := [] } req).2.served = false :=
+  ⟨Ex.P, Ex.cfg2, [.request (Ex.basicReqAt 0 "YWxpY2U6d29uZGVy")], Ex.basicReqAt 1 "YWxpY2U6d29uZGVy",
+   by decide, by decide⟩
 
-/-- Entries are forgotten after max-age: in every reachable state every cache entry was
-    created in the past and is at most max-age (+ the 8-second period of the cleanup
-    trigger) old; older credentials can therefore never be answered from the cache. -/
+/-- What the cache holds, in every reachable state: only restatements of backend records — a
+    Basic entry is a (user, password) pair, a Digest entry the (user name, H(A1)), that the
+    backend scope which vouched for the entry holds under the entry's rule (`EntryOk` at
+    `cfg.at e.scope`).  Nothing a failed attempt supplied is ever stored. -/
+theorem c16_cache_holds_only_backend_records (P : Prims) (cfg : Cfg) (m e : Int) (ops : List Op)
+    (p : Int × Entry) (hp : p ∈ (run P cfg (init m e) ops).cache) :
+    EntryOk P (cfg.at p.2.scope) p.2 ∧ p.2.scope ∈ usedScopes ops :=
+  ⟨run_cacheOkS ops cacheOkS_nil p hp,
+   by simpa using run_scopes (P := P) (cfg := cfg) ops (st := init m e) [] (fun _ h => by cases h) p hp⟩
+
+/-- Entries are forgotten after max-age — with the bound the code really has, and under the
+    assumption it needs: mod_auth has no age test on a cache hit; entries disappear only when
+    mod_auth_periodic() runs, which the server loop calls once per iteration BEFORE updating the
+    clock (so it sees the second that is ending).  While the loop wakes up at least once per
+    second (`Steady`: no iteration finds the clock ≥ 2 s ahead), every entry of every reachable
+    state is at most max-age + 8 seconds old. -/
 theorem c16_cache_expires (P : Prims) (cfg : Cfg) (ma m e : Int) (ops : List Op)
-    (hma : cfg.cacheMaxAge = some ma) (p : Int × Entry)
+    (hma : cfg.cacheMaxAge = some ma) (hst : Steady ops) (p : Int × Entry)
     (hp : p ∈ (run P cfg (init m e) ops).cache) :
     p.2.ctime ≤ (run P cfg (init m e) ops).mono ∧
-    (run P cfg (init m e) ops).mono - p.2.ctime ≤ max ma 0 + 7 := by
-  obtain ⟨h1, h2⟩ := run_ageOk hma ops init_ageOk p hp
+    (run P cfg (init m e) ops).mono - p.2.ctime ≤ max ma 0 + 8 := by
+  obtain ⟨h1, h2⟩ := run_ageOk hma ops hst init_ageOk p hp
   constructor <;> omega
 
-/-- … and max-age + 8 seconds without a request empty the cache completely. -/
-theorem c16_cache_forgets (P : Prims) (cfg : Cfg) (ma m e : Int) (ops : List Op) (dt : Nat)
-    (hma : cfg.cacheMaxAge = some ma) (hdt : max ma 0 + 8 ≤ dt) :
-    (advance cfg dt (run P cfg (init m e) ops)).cache = [] := by
-  cases hc : (advance cfg dt (run P cfg (init m e) ops)).cache with
+/-- … and max-age + 9 seconds of a steadily running loop without a request empty the cache. -/
+theorem c16_cache_forgets (P : Prims) (cfg : Cfg) (ma m e : Int) (ops : List Op) (n : Nat)
+    (hma : cfg.cacheMaxAge = some ma) (hst : Steady ops) (hn : max ma 0 + 9 ≤ n) :
+    (secs cfg n (run P cfg (init m e) ops)).cache = [] := by
+  cases hc : (secs cfg n (run P cfg (init m e) ops)).cache with
   | nil => rfl
   | cons p ps =>
     exfalso
-    have hp : p ∈ (advance cfg dt (run P cfg (init m e) ops)).cache := by rw [hc]; exact List.mem_cons_self
-    have hold := run_ageOk hma ops init_ageOk p (advance_mem dt hp)
-    have hnew := advance_ageOk hma dt (run_ageOk hma ops init_ageOk) p hp
-    rw [advance_mono] at hnew
+    have hp : p ∈ (secs cfg n (run P cfg (init m e) ops)).cache := by rw [hc]; exact List.mem_cons_self
+    have hold := run_ageOk hma ops hst init_ageOk p (secs_mem n hp)
+    have hnew := secs_ageOk hma n (run_ageOk hma ops hst init_ageOk) p hp
+    rw [secs_mono] at hnew
     omega
 
-/-- What the cache holds, in every reachable state: only restatements of backend records —
-    a Basic entry is a (user, password) pair the backend accepts under the entry's rule, a
-    Digest entry is the backend's (user name, H(A1)) for the entry's key, realm and digest
-    length (`EntryOk`).  Nothing a failed attempt supplied is ever stored. -/
-theorem c16_cache_holds_only_backend_records (P : Prims) (cfg : Cfg) (m e : Int) (ops : List Op)
-    (p : Int × Entry) (hp : p ∈ (run P cfg (init m e) ops).cache) : EntryOk P cfg p.2 :=
-  run_cacheOk ops init_cacheOk p hp
+/-- Witness that the assumption is needed: when one loop iteration finds the clock far ahead
+    (the loop stalled: e.g. a long blocking operation) the cleanup is skipped, and an entry
+    older than max-age + 8 s is still in the cache — and would still answer a request. -/
+theorem c16_cache_outlives_max_age_when_loop_stalls :
+    ∃ (P : Prims) (cfg : Cfg) (ma : Int) (ops : List Op), cfg.cacheMaxAge = some ma ∧
+      ∃ p ∈ (run P cfg (init 1000 1700000000) ops).cache,
+        (run P cfg (init 1000 1700000000) ops).mono - p.2.ctime > max ma 0 + 8 :=
+  ⟨Ex.P, Ex.cfg, 600, [.request (Ex.basicReq "YWxpY2U6d29uZGVy"), .adv 1, .adv 700], rfl, by decide +kernel⟩
 
 /-- A nonce lighttpd issues (mod_auth_append_nonce() at time `ts`, any random number, with or
     without nonce-secret) passes the nonce validation for the following 600 seconds — so
@@ -113,36 +196,42 @@ theorem c16_issued_nonce_accepted (P : Prims) (rule : Rule) (epoch ts : Int) (rn
 
 /-- Everything else is refused: the answer to a request for a path under a rule is never
     "pass through"; it is either served — and then carries valid credentials of an authorized
-    user for the rule's scheme — or one of the refusals 401 (with challenge) / 400, or 500
-    only when no backend able to do the rule's scheme is configured. -/
+    user for the rule's scheme (at a backend scope as in c16_basic_sound) — or one of the
+    refusals 401 (with challenge) / 400, or 500 only when the backend in effect cannot do the
+    rule's scheme. -/
 theorem c16_reject_status (P : Prims) (cfg : Cfg) (m e : Int) (ops : List Op) (req : Req)
     (ridx : Nat) (rule : Rule)
     (hf : findRule cfg.rules req.path 0 = some (ridx, rule)) :
-    match (handle P cfg (run P cfg (init m e) ops) req).2 with
+    match (serve P cfg (run P cfg (init m e) ops) req).2 with
     | .pass => False
-    | .go u _ _ => ∃ hdr, req.auth = some hdr ∧
-        ((rule.scheme = .basic ∧ BasicValid P cfg rule hdr u) ∨
-         (rule.scheme = .digest ∧ DigestValid P cfg rule (run P cfg (init m e) ops).epoch req hdr u))
+    | .go u _ _ => ∃ hdr s', req.auth = some hdr ∧ (s' = req.scope ∨ s' ∈ usedScopes ops) ∧
+        ((rule.scheme = .basic ∧ BasicValid P (cfg.at s') rule hdr u) ∨
+         (rule.scheme = .digest ∧ DigestValid P (cfg.at s') rule (run P cfg (init m e) ops).epoch req hdr u))
     | .refuse r => r = .s400 ∨ (∃ ka, r = .s401b ka) ∨ (∃ s ka, r = .s401d s ka) ∨
-        (r = .s500 ∧ (cfg.backend = .none ∨ (rule.scheme = .digest ∧ cfg.backend = .htpasswd))) := by
-  cases ho : (handle P cfg (run P cfg (init m e) ops) req).2 with
-  | pass => exact absurd ho (handle_ne_pass hf)
+        (r = .s500 ∧ ((cfg.at req.scope).backend = .none ∨
+                      (rule.scheme = .digest ∧ (cfg.at req.scope).backend = .htpasswd))) := by
+  have hf' : findRule (cfg.at req.scope).rules req.path 0 = some (ridx, rule) := by rw [at_rules]; exact hf
+  cases ho : (serve P cfg (run P cfg (init m e) ops) req).2 with
+  | pass => exact absurd ho (handle_ne_pass hf')
   | go u d n =>
-    obtain ⟨hdr, hh, hv⟩ := handle_go (run_cacheOk ops init_cacheOk) hf ho
-    refine ⟨hdr, hh, ?_⟩
-    rcases hv with ⟨h1, _, h3⟩ | ⟨h1, _, h3⟩
-    · exact Or.inl ⟨h1, h3⟩
-    · exact Or.inr ⟨h1, h3⟩
+    cases hs : rule.scheme with
+    | basic =>
+      obtain ⟨hdr, s', hh, hs', hv⟩ := c16_basic_sound P cfg m e ops req ridx rule u d n hf hs ho
+      exact ⟨hdr, s', hh, hs', Or.inl ⟨rfl, hv⟩⟩
+    | digest =>
+      obtain ⟨hdr, s', hh, hs', hv⟩ := c16_digest_sound P cfg m e ops req ridx rule u d n hf hs ho
+      exact ⟨hdr, s', hh, hs', Or.inr ⟨rfl, hv⟩⟩
   | refuse r =>
     cases r with
     | s400 => exact Or.inl rfl
     | s401b ka => exact Or.inr (Or.inl ⟨ka, rfl⟩)
     | s401d s ka => exact Or.inr (Or.inr (Or.inl ⟨s, ka, rfl⟩))
-    | s500 => exact Or.inr (Or.inr (Or.inr ⟨rfl, handle_500 hf ho⟩))
+    | s500 => exact Or.inr (Or.inr (Or.inr ⟨rfl, handle_500 hf' ho⟩))
 
 /-- The refusal classes the property names, for a Digest rule: a digest computed for another
     URI (uri ≠ request-target), for another realm, with a stale, future-dated or malformed
-    nonce, or — under nonce-secret — with a nonce the server did not issue, is never served. -/
+    nonce, or — under nonce-secret — with a nonce the server did not issue, is never served,
+    whatever the cache holds. -/
 theorem c16_digest_replay_refused (P : Prims) (cfg : Cfg) (m e : Int) (ops : List Op) (req : Req)
     (ridx : Nat) (rule : Rule) (hdr : Bytes)
     (hf : findRule cfg.rules req.path 0 = some (ridx, rule)) (hs : rule.scheme = .digest)
@@ -150,13 +239,13 @@ theorem c16_digest_replay_refused (P : Prims) (cfg : Cfg) (m e : Int) (ops : Lis
     (hbad : (parseAuthorization (hdr.drop 7)).uri ≠ some req.target
           ∨ (parseAuthorization (hdr.drop 7)).realm ≠ some rule.realm
           ∨ ¬ NonceFresh P rule (run P cfg (init m e) ops).epoch ((parseAuthorization (hdr.drop 7)).nonce.getD [])) :
-    (handle P cfg (run P cfg (init m e) ops) req).2.served = false := by
-  cases ho : (handle P cfg (run P cfg (init m e) ops) req).2 with
-  | pass => exact absurd ho (handle_ne_pass hf)
+    (serve P cfg (run P cfg (init m e) ops) req).2.served = false := by
+  cases ho : (serve P cfg (run P cfg (init m e) ops) req).2 with
+  | pass => exact absurd ho (handle_ne_pass (cfg := cfg.at req.scope) (by rw [at_rules]; exact hf))
   | refuse r => rfl
   | go u d n =>
     exfalso
-    obtain ⟨hdr', hh', hv⟩ := c16_digest_sound P cfg m e ops req ridx rule u d n hf hs ho
+    obtain ⟨hdr', s', hh', _, hv⟩ := c16_digest_sound P cfg m e ops req ridx rule u d n hf hs ho
     rw [hh] at hh'
     simp only [Option.some.injEq] at hh'
     subst hh'
@@ -169,17 +258,17 @@ theorem c16_digest_replay_refused (P : Prims) (cfg : Cfg) (m e : Int) (ops : Lis
 
 /-- Digest responses are bound to the request's own method, with the request taken from what
     the client actually sent: for an HTTP/2 request built by the real header path
-    (`h2Request`: http_request_parse_header() per field, http_request_validate_pseudohdrs(),
-    http_request_parse()), a served request's response equals KD(…, H(method:uri)) for the
-    ":method" of its header list.  The one exception is the RFC 8441 extended CONNECT — the
-    list contains ":method: CONNECT" AND ":protocol: websocket" — whose response may be bound
-    to "GET" instead.  A ":protocol" next to any other method, before or after ":method",
-    opens nothing. -/
-theorem c16_digest_method_bound (P : Prims) (cfg : Cfg) (m e : Int) (ops : List Op)
+    (`h2Request`, any parse options `o`: http_request_parse_header() per field,
+    http_request_validate_pseudohdrs(), http_request_parse()), a served request's response
+    equals KD(…, H(method:uri)) for the ":method" of its header list.  The one exception is the
+    RFC 8441 extended CONNECT — the list contains ":method: CONNECT" AND ":protocol: websocket"
+    — whose response may be bound to "GET" instead.  A ":protocol" next to any other method,
+    before or after ":method", opens nothing.  (HTTP/1.x: the method is the request line's, C01.) -/
+theorem c16_digest_method_bound (P : Prims) (cfg : Cfg) (m e : Int) (ops : List Op) (o : Opts)
     (fields : List (Bytes × Bytes)) (req : Req) (ridx : Nat) (rule : Rule) (u : Bytes) (d n : Bool)
-    (hreq : h2Request fields = .ok req)
+    (hreq : h2Request o fields = .ok req)
     (hf : findRule cfg.rules req.path 0 = some (ridx, rule)) (hs : rule.scheme = .digest)
-    (h : (handle P cfg (run P cfg (init m e) ops) req).2 = .go u d n) :
+    (h : (serve P cfg (run P cfg (init m e) ops) req).2 = .go u d n) :
     (ofString ":method", req.method) ∈ fields ∧
     ∃ hdr dalgo hA1, req.auth = some hdr ∧
       (hex2bin ((parseAuthorization (hdr.drop 7)).response.getD [])
@@ -188,7 +277,7 @@ theorem c16_digest_method_bound (P : Prims) (cfg : Cfg) (m e : Int) (ops : List 
           hex2bin ((parseAuthorization (hdr.drop 7)).response.getD [])
             = some (kd P dalgo hA1 (parseAuthorization (hdr.drop 7)) (ofString "GET")))) := by
   obtain ⟨hmeth, hproto⟩ := h2Request_from hreq
-  obtain ⟨hdr, hh, hv⟩ := c16_digest_sound P cfg m e ops req ridx rule u d n hf hs h
+  obtain ⟨hdr, s', hh, _, hv⟩ := c16_digest_sound P cfg m e ops req ridx rule u d n hf hs h
   obtain ⟨_, dp, nonce, dalgo, dlen, name, hA1, hdp, _, _, _, _, _, _, _, _, hresp, _⟩ := hv
   subst hdp
   refine ⟨hmeth, hdr, dalgo, hA1, hh, ?_⟩
@@ -205,50 +294,54 @@ theorem c16_base64_table_inverse :
 
 /-! ### non-vacuity: concrete instances (toy digest `Ex.H`, all cache keys colliding) -/
 
--- valid Basic credentials are served, as that user; c16_basic_sound / c16_reject_status apply
-example : (handle Ex.P Ex.cfg Ex.st0 (Ex.basicReq "YWxpY2U6d29uZGVy")).2 = .go (ofString "alice") false false := by
+-- valid Basic credentials are served, as that user (c16_basic_sound, c16_basic_valid_served, c16_reject_status)
+example : (serve Ex.P Ex.cfg Ex.st0 (Ex.basicReq "YWxpY2U6d29uZGVy")).2 = .go (ofString "alice") false false := by
   decide
 example : (findRule Ex.cfg.rules (Ex.basicReq "YWxpY2U6d29uZGVy").path 0).map (·.1) = some 0 := by decide
 -- wrong password, unknown user, malformed base64: refused
-example : (handle Ex.P Ex.cfg Ex.st0 (Ex.basicReq "YWxpY2U6d29uZGU=")).2 = .refuse (.s401b false) := by decide
-example : (handle Ex.P Ex.cfg Ex.st0 (Ex.basicReq "bWFsbG9yeTp3b25kZXI=")).2 = .refuse (.s401b false) := by decide
-example : (handle Ex.P Ex.cfg Ex.st0 (Ex.basicReq "YWxpY2U6d29uZGVy!!junk")).2 = .refuse .s400 := by decide
--- valid Digest credentials are served; c16_digest_sound applies
-example : (handle Ex.P Ex.cfg Ex.st0 (Ex.digestReq "GET" "alice" "/dig/x" "f74d7460a65e2bc2f0d9787b75f3d477")).2
+example : (serve Ex.P Ex.cfg Ex.st0 (Ex.basicReq "YWxpY2U6d29uZGU=")).2 = .refuse (.s401b false) := by decide
+example : (serve Ex.P Ex.cfg Ex.st0 (Ex.basicReq "bWFsbG9yeTp3b25kZXI=")).2 = .refuse (.s401b false) := by decide
+example : (serve Ex.P Ex.cfg Ex.st0 (Ex.basicReq "YWxpY2U6d29uZGVy!!junk")).2 = .refuse .s400 := by decide
+-- valid Digest credentials are served (c16_digest_sound, c16_digest_valid_served)
+example : (serve Ex.P Ex.cfg Ex.st0 (Ex.digestReq "GET" "alice" "/dig/x" "f74d7460a65e2bc2f0d9787b75f3d477")).2
     = .go (ofString "alice") true false := by decide +kernel
 -- the same digest replayed with another method, for another URI, ten minutes later: refused
-example : (handle Ex.P Ex.cfg Ex.st0 (Ex.digestReq "POST" "alice" "/dig/x" "f74d7460a65e2bc2f0d9787b75f3d477")).2
+example : (serve Ex.P Ex.cfg Ex.st0 (Ex.digestReq "POST" "alice" "/dig/x" "f74d7460a65e2bc2f0d9787b75f3d477")).2
     = .refuse (.s401d 0 false) := by decide +kernel
-example : (handle Ex.P Ex.cfg Ex.st0 (Ex.digestReq "GET" "alice" "/dig/y" "f74d7460a65e2bc2f0d9787b75f3d477")).2
+example : (serve Ex.P Ex.cfg Ex.st0 (Ex.digestReq "GET" "alice" "/dig/y" "f74d7460a65e2bc2f0d9787b75f3d477")).2
     = .refuse .s400 := by decide +kernel
-example : (handle Ex.P Ex.cfg (advance Ex.cfg 601 Ex.st0)
+example : (serve Ex.P Ex.cfg (secs Ex.cfg 601 Ex.st0)
              (Ex.digestReq "GET" "alice" "/dig/x" "f74d7460a65e2bc2f0d9787b75f3d477")).2
     = .refuse (.s401d 2 true) := by decide +kernel
 -- c16_digest_method_bound: over HTTP/2, alice's GET-bound digest with ":method: POST" followed by
 -- ":protocol: websocket" is refused; the same digest on a genuine extended CONNECT is served
-example : ((h2Request (Ex.h2Fields [(":method", "POST"), (":protocol", "websocket"), (":scheme", "https"),
+example : ((h2Request h2Opts (Ex.h2Fields [(":method", "POST"), (":protocol", "websocket"), (":scheme", "https"),
               (":path", "/dig/x"), (":authority", "h")] "f74d7460a65e2bc2f0d9787b75f3d477")).toOption.map
-            fun r => (handle Ex.P Ex.cfg Ex.st0 r).2) = some (.refuse (.s401d 0 false)) := by decide +kernel
-example : ((h2Request (Ex.h2Fields [(":protocol", "websocket"), (":method", "CONNECT"), (":scheme", "https"),
+            fun r => (serve Ex.P Ex.cfg Ex.st0 r).2) = some (.refuse (.s401d 0 false)) := by decide +kernel
+example : ((h2Request h2Opts (Ex.h2Fields [(":protocol", "websocket"), (":method", "CONNECT"), (":scheme", "https"),
               (":path", "/dig/x"), (":authority", "h")] "f74d7460a65e2bc2f0d9787b75f3d477")).toOption.map
-            fun r => (handle Ex.P Ex.cfg Ex.st0 r).2) = some (.go (ofString "alice") true false) := by decide +kernel
+            fun r => (serve Ex.P Ex.cfg Ex.st0 r).2) = some (.go (ofString "alice") true false) := by decide +kernel
 -- bob authenticates but the rule authorizes only alice: refused (and cached H(A1) does not help him)
-example : (handle Ex.P Ex.cfg Ex.st0 (Ex.digestReq "GET" "bob" "/dig/x" "9fe9b187d0dc3112020e9162e9613e7c")).2
+example : (serve Ex.P Ex.cfg Ex.st0 (Ex.digestReq "GET" "bob" "/dig/x" "9fe9b187d0dc3112020e9162e9613e7c")).2
     = .refuse (.s401d 0 true) := by decide +kernel
--- c16_cache_never_upgrades / c16_cache_hit…: after alice was served (entry cached under the
--- colliding key 0), bob's wrong password is still refused and alice's entry is replaced
-example : (handle Ex.P Ex.cfg (run Ex.P Ex.cfg Ex.st0 [.request (Ex.basicReq "YWxpY2U6d29uZGVy")])
+-- c16_cache_never_upgrades_partial: after alice was served (entry cached under the colliding key 0),
+-- bob's wrong password is still refused; the cache holds alice's verified password only
+example : (serve Ex.P Ex.cfg (run Ex.P Ex.cfg Ex.st0 [.request (Ex.basicReq "YWxpY2U6d29uZGVy")])
              (Ex.basicReq "Ym9iOndvbmRlcg==")).2 = .refuse (.s401b false) := by decide
-example : (run Ex.P Ex.cfg Ex.st0 [.request (Ex.basicReq "YWxpY2U6d29uZGVy")]).cache.length = 1 := by decide
--- c16_cache_holds_only_backend_records: the one entry is alice's verified password
 example : (run Ex.P Ex.cfg Ex.st0 [.request (Ex.basicReq "YWxpY2U6d29uZGVy"),
-             .request (Ex.basicReq "Ym9iOndvbmRlcg==")]).cache.map (fun p => (p.2.username, p.2.pw))
-    = [(ofString "alice", ofString "wonder")] := by decide
+             .request (Ex.basicReq "Ym9iOndvbmRlcg==")]).cache.map (fun p => (p.2.username, p.2.pw, p.2.scope))
+    = [(ofString "alice", ofString "wonder", 0)] := by decide
+-- the one-backend hypothesis is satisfiable with several scopes: scope 0 and an unlisted scope of Ex.cfg
+example : SameBackend Ex.cfg 0 7 := ⟨by decide, by decide⟩
 -- c16_issued_nonce_accepted: a nonce issued under a nonce-secret, checked 541 s later
 example : (validateNonce Ex.P Ex.secretRule 1700000541
             (appendNonce Ex.P 1700000000 (some (ofString "s3cr3t")) 12345) 2).toOption = some true := by
   decide +kernel
--- c16_cache_expires / c16_cache_forgets: the entry is gone 608 s later
-example : (run Ex.P Ex.cfg Ex.st0 [.request (Ex.basicReq "YWxpY2U6d29uZGVy"), .adv 608]).cache = [] := by decide +kernel
+-- c16_cache_expires / c16_cache_forgets: a steady history; the entry is gone after 609 one-second iterations
+example : Steady [.request (Ex.basicReq "YWxpY2U6d29uZGVy"), .secs 609, .adv 1, .adv 0, .epochShift (-5)] := by simp [Steady]
+example : (run Ex.P Ex.cfg Ex.st0 [.request (Ex.basicReq "YWxpY2U6d29uZGVy"), .secs 608]).cache.length = 1 := by
+  decide +kernel
+example : (run Ex.P Ex.cfg Ex.st0 [.request (Ex.basicReq "YWxpY2U6d29uZGVy"), .secs 609]).cache = [] := by
+  decide +kernel
 
 end LtVerif.C16
